@@ -349,9 +349,13 @@ def _main(args=None):
             raise ArgumentError
         return val
 
+    # No abbreviated long options: `argparse` looks for them in *every*
+    # option-like string, also in the arguments meant for the profiled
+    # program (`kernprof script.py --pro` died of "ambiguous option")
     create_parser = functools.partial(
         ArgumentParser,
-        description='Run and profile a python script.')
+        description='Run and profile a python script.',
+        allow_abbrev=False)
 
     if args is None:
         args = sys.argv[1:]
